@@ -16,6 +16,7 @@
 package common
 
 import (
+	"errors"
 	"fmt"
 
 	"github.com/blinklabs-io/gouroboros/cbor"
@@ -44,9 +45,17 @@ func NewPointOrigin() Point {
 // UnmarshalCBOR is a helper function for decoding a Point object from CBOR. The object content can vary,
 // so we need to do some special handling when decoding. It is not intended to be called directly.
 func (p *Point) UnmarshalCBOR(data []byte) error {
+	// A point is either the empty list (origin) or [slot, hash]; CBOR null /
+	// undefined would otherwise decode into a nil slice and pass as origin
+	if len(data) == 0 || data[0]&cbor.CborTypeMask != cbor.CborTypeArray {
+		return errors.New("Point must be a CBOR list")
+	}
 	var tmp []any
 	if _, err := cbor.Decode(data, &tmp); err != nil {
 		return err
+	}
+	if len(tmp) != 0 && len(tmp) != 2 {
+		return fmt.Errorf("Point must have 0 or 2 items, got %d", len(tmp))
 	}
 	if len(tmp) == 2 {
 		slot, ok := tmp[0].(uint64)
